@@ -94,6 +94,18 @@ CHECKS = {
              "of their lines). Real DiagramRule evaluations (both modes, both naming options, bystanders and sub modules) "
              "on emitted states and seeded random worlds are validated for verdict and complete aggregated message.",
         design_ref="6 (C07)"),
+    "C17": dict(
+        technique="TLA+ specification of plot labels (Labels.tla) model-checked with TLC over all alias maps of a "
+                  "bounded module tree; every emitted alias map replayed into real visualize() calls observed at the "
+                  "intercepted drawing backend and validated by Trace_Labels.tla",
+        text="Labels!LabelSource decides which aliased module heads a module's label (nearest aliased ancestor-or-self "
+             "by whole components). TLC checks totality, nearest-ancestor, locality of a new alias over all alias maps "
+             "of the bounded tree (including aliases of non-existing modules). Each emitted map and seeded random "
+             "trees/maps (nested aliases, alias texts with dots and regex metacharacters, spacing option, random drawing "
+             "options) are passed to the real visualize(); the keyword arguments received by the drawing backend are "
+             "validated: every module labelled exactly once with the specified label, unknown aliased module rejected "
+             "naming it, other options unchanged; each call repeated under collision-free and adversarial renamings.",
+        design_ref="6 (C17)"),
 }
 
 PENDING = {}
